@@ -60,13 +60,31 @@ class Obligation:
             for h in self.hyps:
                 for c in conjuncts(h):
                     have.add(self.canon(c))
+            def close(have_, hyps_):
+                # modus ponens on hypotheses that are literally `A -> B` with A (all its conjuncts) already at hand
+                imps = [c for h in hyps_ for c in conjuncts(h) if z3.is_implies(c)]
+                changed = True
+                while changed and imps:
+                    changed = False
+                    for c in list(imps):
+                        if all(self.canon(a) in have_ for a in conjuncts(c.arg(0))):
+                            imps.remove(c)
+                            for b in conjuncts(c.arg(1)):
+                                k = self.canon(b)
+                                if k not in have_:
+                                    have_.add(k)
+                                    changed = True
+                return have_
+            have = close(have, self.hyps)
             if all(self.canon(g) in have for g in conjuncts(self.goal)):
                 return True
             # second pass modulo z3's simplifier (an equivalence-preserving rewriting: x + 0, double negations, ...)
             have2 = set(have)
-            for h in self.hyps:
-                for c in conjuncts(z3.simplify(h)):
+            simp = [z3.simplify(h) for h in self.hyps]
+            for h in simp:
+                for c in conjuncts(h):
                     have2.add(self.canon(c))
+            have2 = close(have2, simp)
             return all(self.canon(g) in have2 or self.canon(z3.simplify(g)) in have2 for g in conjuncts(self.goal))
         except Exception:   # noqa
             return False
@@ -1404,8 +1422,11 @@ class Engine:
             if v is not None and is_int(v):
                 key = "fstr:" + "".join(x.value if isinstance(x, ast.Constant) else "{}" for x in e.values)
                 f = z3.Function(key, I, R)
-                i, j = z3.Ints("i!fs j!fs")
-                ax = z3.ForAll([i, j], z3.Implies(f(i) == f(j), i == j), patterns=[z3.MultiPattern(f(i), f(j))])
+                # injectivity through a left inverse: one instance per f-term (the pairwise form  f(i) == f(j) -> i == j  with a
+                # two-term multi-pattern instantiates quadratically and made otherwise trivial VCs time out)
+                i = z3.Int("i!fs")
+                finv = z3.Function(key + "!inv", R, I)
+                ax = z3.ForAll([i], finv(f(i)) == i, patterns=[f(i)])
                 if not any(ax.eq(a) for a in self.global_axioms):
                     self.global_axioms = list(self.global_axioms) + [ax]
                     self.psum_used = True
